@@ -14,8 +14,12 @@ Oracles (none of them re-calls the writer or the reader):
   * numbers read == the decimal value of the field text the check cut out of the file, converted
     with exact rational arithmetic and compared on the MBF bytes (MKI$/MKS$/MKD$) within 1 ulp;
   * EOF(1) = 0 before every INPUT#/LINE INPUT# statement and -1 after the last one;
-  * LOF(1) == size of the host file, in OUTPUT/APPEND mode after every statement and in INPUT mode
-    after every read.
+  * LOF(1) in OUTPUT/APPEND mode, right after OPEN and after every statement == the number of
+    bytes the statements so far must have produced (previous content minus its EOF byte for APPEND
+    plus every statement's bytes; the per-statement byte counts are taken after CLOSE from the
+    framing walk over the closed file, never from the host size at query time, which may lag
+    behind the interpreter's write buffer); host size == that count + EOF after CLOSE;
+    LOF(1) == size of the host file in INPUT mode after every read.
 """
 import os
 from fractions import Fraction
@@ -48,8 +52,9 @@ ASSUMPTIONS = [
     "the value was written from. A DOUBLE variable may also receive the SINGLE nearest to a text "
     "of <= 7 digits without D exponent (GW-BASIC and VAL take such text for a SINGLE: .1 reads as "
     ".1000000014901161)",
-    "LOF is compared with os.path.getsize right after LOF was evaluated (the implementation's "
-    "buffered stream is flushed by the seek LOF performs)",
+    "LOF in OUTPUT/APPEND mode is compared with the model's byte count, not with the host file "
+    "size at that moment (pending bytes in the write buffer count); the host size is compared "
+    "after CLOSE only",
     "a 255-byte string followed by another item is a separate, reported finding (GW-compatible "
     "reader limit); generated strings are clipped to 254 bytes while it is present on the tree. "
     "The same mechanism guards the fixed findings (255-character line, leading CR LF in quotes): "
@@ -257,6 +262,13 @@ class Run(object):
                 content = []
             elif prev is not None:
                 self.res.nt(True)
+            # LOF inside the write session, compared after CLOSE with the number of bytes the
+            # statements so far must have produced: [(statements in the file so far, LOF(1))]
+            lofs = []
+            lof = self.ev('LOF(1)')
+            if lof is None:
+                return None
+            lofs.append((len(content), lof))
             for items in stmts:
                 names = []
                 for i, (t, v) in enumerate(items):
@@ -278,10 +290,7 @@ class Run(object):
                 lof = self.ev('LOF(1)')
                 if lof is None:
                     return None
-                size = os.path.getsize(self.path())
-                if lof != size:
-                    self.fail('lof.output', 'after %d statements: LOF(1) = %r, host file has %d '
-                              'bytes' % (len(content), lof, size))
+                lofs.append((len(content), lof))
             o = self.ex('CLOSE #1', 'close')
             if o is None:
                 return None
@@ -298,6 +307,26 @@ class Run(object):
                     self.stop = True
                     return None
             prev = raw
+            # the model's byte counts: cumulative statement lengths taken from the closed file by
+            # the framing walk (which checked every byte against what was written); for APPEND the
+            # count starts at the previous content minus its EOF byte
+            if self.walk(raw, content) is None:
+                self.stop = True
+                return None
+            if len(raw) != (self.ends[-1] if self.ends else 0) + 1:
+                self.fail('file.size', 'host file has %d bytes, statements produced %d + EOF' % (
+                    len(raw), self.ends[-1] if self.ends else 0))
+            for done, lof in lofs:
+                want = self.ends[done - 1] if done else 0
+                if lof != want:
+                    self.fail('lof.output', 'session %d (%s), %d statement(s) in the file: LOF(1) = '
+                              '%r, the statements so far produced %d bytes' % (
+                                  si, mode, done, lof, want))
+                    break
+                if want >= 8192:
+                    self.res.label('lof:beyond-8192-bytes')
+                elif want >= 128:
+                    self.res.label('lof:beyond-128-bytes')
         return content
 
     def walk(self, raw, content):
@@ -305,6 +334,7 @@ class Run(object):
         pos = 0
         body = raw[:-1]
         texts = []
+        self.ends = []          # offset just after every statement's CR LF
         for si, items in enumerate(content):
             if self.kind == 'print':
                 line = b''.join(v for _, v in items)
@@ -314,6 +344,7 @@ class Run(object):
                         si, _short(body[pos:pos + len(exp) + 8]), _short(exp)))
                     return None
                 pos += len(exp)
+                self.ends.append(pos)
                 continue
             for i, (t, v) in enumerate(items):
                 if t == 's':
@@ -341,6 +372,7 @@ class Run(object):
                               '%r' % (si, i, body[pos:pos + 2], sep))
                     return None
                 pos += len(sep)
+            self.ends.append(pos)
         if pos != len(body):
             self.fail('file.framing', 'trailing bytes %r' % _short(body[pos:]))
             return None
@@ -544,8 +576,16 @@ def strat_case(maxstmts):
         else:
             stmt = st.lists(st.builds(lambda v: {'t': 's', 'v': v}, strat_string()), min_size=1,
                             max_size=2)
-        stmts = st.integers(0, maxstmts).flatmap(
+        # sessions that write well past the 8192-byte stream buffer (LOF must count pending bytes)
+        filler = st.builds(lambda n, c: {'t': 's', 'v': (c * 254)[:n]}, st.integers(150, 254),
+                           st.sampled_from(['x', 'ab', 'q ', ',', 'z\xe9']))
+        bigstmt = st.lists(filler, min_size=3, max_size=4) if kind == 'write' else st.lists(
+            filler, min_size=1, max_size=1)
+        nbig = (10, 16) if kind == 'write' else (36, 48)
+        big = st.integers(*nbig).flatmap(lambda n: st.lists(bigstmt, min_size=n, max_size=n))
+        normal = st.integers(0, maxstmts).flatmap(
             lambda n: st.lists(stmt, min_size=n, max_size=n))
+        stmts = weighted((normal, 9), (big, 1))
         first = st.builds(lambda m, ss: {'mode': m, 'stmts': ss}, st.sampled_from(['O', 'O', 'A']),
                           stmts)
         later = st.builds(lambda m, ss: {'mode': m, 'stmts': ss},
@@ -597,6 +637,12 @@ REGRESSIONS = [
         {'mode': 'A', 'stmts': [[{'t': 's', 'v': 'last'}]]}]},
     {'kind': 'print', 'soft': True, 'groups': [1], 'sessions': [
         {'mode': 'O', 'stmts': [[{'t': 's', 'v': 'a\nb'}], [{'t': 's', 'v': '\nc'}]]}]},
+    # LOF inside OUTPUT and APPEND sessions counts the bytes still in the write buffer (reviewer's
+    # seeded change: fstat instead of seek) - before/after the 128-byte and 8192-byte marks
+    {'kind': 'write', 'soft': False, 'groups': [4], 'sessions': [
+        {'mode': 'O', 'stmts': [[{'t': 's', 'v': 'a'}]] + [[{'t': 's', 'v': 'x' * 250}] * 4] * 9},
+        {'mode': 'A', 'stmts': [[{'t': '%', 'v': 1}], [{'t': 's', 'v': 'y' * 120}, {'t': '#', 'v': 0.5}]]},
+        {'mode': 'A', 'stmts': []}]},
 ]
 
 KILLS = [
@@ -609,5 +655,6 @@ KILLS = [
     'TextFileBase.eof ignores 0x1A  => eof.late',
     'TextFile.read_line: limit 200 => lineinput.line ; strips leading blanks => lineinput.line',
     'input_entry: trailing-blank skip after the closing quote removed  => input.string, input.number, eof.late',
+    "TextFile.lof via os.fstat(fileno).st_size instead of seek (reviewer's seeded change: pending bytes of the write buffer not counted) => ./check red: lof.output ('LOF(1) = 0.0, the statements so far produced 4 bytes') ; variant that is only stale beyond 8192 pending bytes => lof.output in a >8 KiB session",
     "SURVIVED (equivalent on POSIX): TextFile.__init__ APPEND seeks to the start - the stream is opened with mode 'a' (O_APPEND)",
 ]
